@@ -35,6 +35,8 @@ type reader struct {
 	Sizes   []int  `json:"sizes,omitempty"`   // cyclic maximum read sizes (frag)
 	Zeros   []int  `json:"zeros,omitempty"`   // cyclic number of (0,nil) returns before each real read (frag)
 	DataEOF bool   `json:"dataeof,omitempty"` // last bytes are returned together with io.EOF (frag)
+	ErrAt   int    `json:"errat,omitempty"`   // > 0: the reader fails with its own (non-EOF) error after this many bytes (frag)
+	ErrWithData bool `json:"errwithdata,omitempty"` // the failing Read also returns the bytes before the error point
 }
 
 type fcase struct {
@@ -182,8 +184,12 @@ func refDecode(s []byte) (chunks [][]byte, t term) {
 // ---------------------------------------------------------------------------
 // reader behaviours: everything here is permitted by the io.Reader contract
 
+var errCarrier = errors.New("carrier broke (not EOF)")
+
 type fragReader struct {
-	s       []byte
+	errAt       int
+	errWithData bool
+	s           []byte
 	pos     int
 	sizes   []int
 	zeros   []int
@@ -212,11 +218,23 @@ func (r *fragReader) Read(p []byte) (int, error) {
 		return 0, nil
 	}
 	r.primed = false
+	if r.errAt > 0 && r.pos >= r.errAt {
+		return 0, errCarrier
+	}
 	if r.pos == len(r.s) {
 		r.done = true
 		return 0, io.EOF
 	}
 	max := len(p)
+	if r.errAt > 0 && r.pos+max >= r.errAt {
+		// the read that reaches the error point
+		max = r.errAt - r.pos
+		if !r.errWithData {
+			if max > 1 {
+				max-- // stop one short now, fail on the next call
+			}
+		}
+	}
 	if len(r.sizes) > 0 {
 		if m := r.sizes[r.k%len(r.sizes)]; m < max {
 			max = m
@@ -228,6 +246,9 @@ func (r *fragReader) Read(p []byte) (int, error) {
 	}
 	n := copy(p[:max], r.s[r.pos:])
 	r.pos += n
+	if r.errAt > 0 && r.pos >= r.errAt && r.errWithData {
+		return n, errCarrier
+	}
 	if r.pos == len(r.s) && r.dataEOF {
 		r.done = true
 		return n, io.EOF
@@ -238,7 +259,11 @@ func (r *fragReader) Read(p []byte) (int, error) {
 func makeReader(c *fcase, stream []byte, cuts []int) (io.Reader, func()) {
 	switch c.Reader.Kind {
 	case "frag":
-		return &fragReader{s: stream, sizes: c.Reader.Sizes, zeros: c.Reader.Zeros, dataEOF: c.Reader.DataEOF}, func() {}
+		errAt := c.Reader.ErrAt
+		if errAt >= len(stream) {
+			errAt = 0 // the failure point lies beyond the stream: a plain end of stream
+		}
+		return &fragReader{s: stream, sizes: c.Reader.Sizes, zeros: c.Reader.Zeros, dataEOF: c.Reader.DataEOF, errAt: errAt, errWithData: c.Reader.ErrWithData}, func() {}
 	case "pipe":
 		pr, pw := io.Pipe()
 		go func() {
@@ -274,6 +299,11 @@ func runFraming(_ *testing.T, c fcase) error {
 		return err
 	}
 	want, wantTerm := refDecode(stream)
+	injected := c.Reader.Kind == "frag" && c.Reader.ErrAt > 0 && c.Reader.ErrAt < len(stream)
+	if injected {
+		// only what lies wholly before the failure point may be delivered
+		want, _ = refDecode(stream[:c.Reader.ErrAt])
+	}
 	r, closer := makeReader(&c, stream, cuts)
 	defer closer()
 	for i := 0; ; i++ {
@@ -289,6 +319,12 @@ func runFraming(_ *testing.T, c fcase) error {
 		}
 		if got != nil {
 			return fmt.Errorf("chunk #%d: ReadData returned data together with error %v", i, err)
+		}
+		if injected {
+			if i != len(want) {
+				return fmt.Errorf("reader fails with its own error after %d bytes: ReadData delivered %d chunks, %d lie wholly before that point", c.Reader.ErrAt, i, len(want))
+			}
+			return nil // any error is fine here; delivering a chunk that was never completely read is not
 		}
 		if i != len(want) {
 			return fmt.Errorf("ReadData stopped with %v after %d chunks, the stream holds %d data chunks before its terminal condition %v", err, i, len(want), wantTerm)
@@ -350,6 +386,10 @@ func genReader(t *rapid.T) reader {
 			r.Zeros = rapid.SliceOfN(rapid.IntRange(0, 3), 1, 4).Draw(t, "zerolist")
 		}
 		r.DataEOF = rapid.Bool().Draw(t, "dataeof")
+		if rapid.IntRange(0, 3).Draw(t, "inject") == 0 {
+			r.ErrAt = rapid.OneOf(rapid.IntRange(1, 40), rapid.IntRange(1, 3000), rapid.IntRange(1, 70000)).Draw(t, "errat")
+			r.ErrWithData = rapid.Bool().Draw(t, "errwithdata")
+		}
 		return r
 	}
 }
@@ -421,6 +461,10 @@ func classify(c fcase) (bool, []string) {
 		if c.Reader.DataEOF {
 			hostile = true
 			labels = append(labels, "data+EOF")
+		}
+		if c.Reader.ErrAt > 0 {
+			hostile = true
+			labels = append(labels, "reader error mid-stream")
 		}
 	}
 	if c.Raw != nil {
